@@ -153,6 +153,12 @@ func runUnit(res *common.Result) {
 		skeletons(func(c Cfg) bool { return each(c, 0, false, *pruneFlag) }, sigma)
 	case "quiesc4": // C04: explicit-state search over completion orders, DAG<=4
 		dags(1, 4, sigma, 0, true, *pruneFlag, nonOK(1))
+	case "quiesc3-b1": // C04 under fine-grained schedules: the invariant at every quiescent state of every bound-1 schedule
+		res.Bound = 1
+		dags(1, 3, sigma, 1, false, *pruneFlag, nil)
+	case "quiesc3-b2":
+		res.Bound = 2
+		dags(1, 3, sigma, 2, false, *pruneFlag, nil)
 	case "quiesc4-full":
 		dags(1, 4, sigma, 0, true, *pruneFlag, nil)
 	case "quiesc-nested":
